@@ -93,9 +93,21 @@ def circle(sz, cmode='any', meta=True):
 
 def _ratio_pair(sz, max_ratio=100.0):
     lr = math.log10(max_ratio)
-    return st.tuples(sz, st.one_of(st.floats(-lr, lr), st.just(0.0),
-                                   st.floats(-0.3, 0.3))).map(
-        lambda t: (t[0], float(t[0] * 10.0 ** t[1])))
+    # (beyond 1:100 the second size stays within 1e-3 .. 1e6 px, the range
+    # the size quantifiers name)
+    clip = (lambda v: min(max(v, 1e-3), 1e6)) if max_ratio > 100.0 else float
+    usual = st.tuples(sz, st.one_of(st.floats(-lr, lr), st.just(0.0),
+                                    st.floats(-0.3, 0.3),
+                                    st.floats(-min(lr, 2.0), min(lr, 2.0)))).map(
+        lambda t: (t[0], float(clip(t[0] * 10.0 ** t[1]))))
+    if max_ratio <= 100.0:
+        return usual
+    # the two sizes drawn independently, and needle-like pairs from the two
+    # ends of the size range
+    tiny = st.floats(-3.0, -1.5).map(lambda e: 10.0 ** e)
+    huge = st.floats(4.0, 6.0).map(lambda e: 10.0 ** e)
+    return st.one_of(usual, usual, st.tuples(sz, sz),
+                     st.tuples(tiny, huge), st.tuples(huge, tiny))
 
 
 def ellipse(sz, cmode='any', meta=True, cls='EllipsePixelRegion',
@@ -276,8 +288,8 @@ def maskable(sz, cmode='any', meta=True, max_ratio=100.0, annuli=True,
     return st.one_of(parts)
 
 
-def simple_pixel(sz, cmode='any', meta=True):
-    return st.one_of(maskable(sz, cmode, meta), point(cmode, meta),
+def simple_pixel(sz, cmode='any', meta=True, max_ratio=100.0):
+    return st.one_of(maskable(sz, cmode, meta, max_ratio), point(cmode, meta),
                      line(cmode, meta), text(cmode, meta))
 
 
